@@ -1,8 +1,51 @@
-(* Props/C05.v — property theorems only (grows as the proofs land). *)
+(* Props/C05.v — property theorems only. *)
 From Coq Require Import List NArith ZArith.
-From N0 Require Import Base.PyStr Base.PyVal.
+From N0 Require Import Base.PyStr Base.PyVal Xpath.Dec Xpath.DecProofs Xpath.Token Xpath.TokenProofs
+  Xpath.Find Xpath.FindProofs Xpath.Write Xpath.SpecProofs Xpath.WalkProofs Xpath.DeleteProofs.
 Import ListNotations.
 
-Theorem C05_set_nth_length : forall (n : nat) (v : tree) l, length (set_nth n v l) = length l.
-Proof. exact (@set_nth_length tree). Qed.
-Print Assumptions C05_set_nth_length.
+(* delete(xpath) on a path that spells an existing node (relative, '/'- or '//'-rooted,
+   'a[i][j]', negative indexes: whatever tokenises to a spelling) removes exactly that
+   dict entry / list element: the result is delete_at (later list elements shift down;
+   delete_at changes nothing else). *)
+Theorem C05_delete_exact :
+  forall root x p, keys_ok root -> tokenize x <> [] -> spells root p (tokenize x) ->
+  delete_res (wfuel x) root x false = Ok (delete_at root p).
+Proof. exact delete_existing. Qed.
+Print Assumptions C05_delete_exact.
+
+(* pop returns the value lookup returns and has the effect of delete *)
+Theorem C05_pop_existing :
+  forall root x p, keys_ok root -> has_path_char x = true -> no_qmark x -> tokenize x <> [] ->
+  spells root p (tokenize x) ->
+  exists v, resolve root p = Some v /\ pop (wfuel x) root x false = Ok (Some v, delete_at root p).
+Proof. exact pop_existing. Qed.
+Print Assumptions C05_pop_existing.
+
+(* pop of a path on which item access raises returns the default and the tree lookup left *)
+Theorem C05_pop_missing : forall fuel root x rc root' e,
+  dict_getitem fuel root x = Ok (root', LRaise e) -> pop fuel root x rc = Ok (None, root').
+Proof. exact pop_missing. Qed.
+Print Assumptions C05_pop_missing.
+
+(* the Spec: the removed key no longer resolves; a list loses exactly one element; the
+   rest of the tree is the old tree (delete_at is replace_at of the parent) *)
+Theorem C05_removed_key_gone : forall (k : pstr) (kvs : list (pstr * tree)),
+  NoDup (map fst kvs) -> lookup k (remove_key k kvs) = None.
+Proof. exact (@lookup_remove_key tree). Qed.
+Print Assumptions C05_removed_key_gone.
+
+Theorem C05_list_shrinks_by_one : forall (l : list tree) i, i < length l -> length (del_nth i l) = length l - 1.
+Proof. exact (@del_nth_length tree). Qed.
+Print Assumptions C05_list_shrinks_by_one.
+
+Theorem C05_delete_is_local : forall t q r u,
+  r <> [] -> resolve t q = Some u -> delete_at t (q ++ r) = replace_at t q (delete_at u r).
+Proof. exact delete_at_app. Qed.
+Print Assumptions C05_delete_is_local.
+
+Theorem C05_nonvacuous :
+  exists root x p, keys_ok root /\ has_path_char x = true /\ no_qmark x /\ tokenize x <> [] /\
+                   spells root p (tokenize x) /\ resolve root p = Some (Leaf (SInt 7)).
+Proof. exact c01_example. Qed.
+Print Assumptions C05_nonvacuous.
